@@ -1455,9 +1455,12 @@ class Component(composites.Composite, metaclass=ComponentType):
             # possible that there are no nuclides in this component yet. In that case,
             # defer to Material. Material.density is wrapped to warn if it's attached
             # to a parent. Avoid that by calling the inner function directly
-            density = self.material.density.__wrapped__(
-                self.material, Tc=self.temperatureInC
-            )
+            # (fluid materials undo that wrapping: their density can be called as it is)
+            innerDensity = getattr(self.material.density, "__wrapped__", None)
+            if innerDensity is not None:
+                density = innerDensity(self.material, Tc=self.temperatureInC)
+            else:
+                density = self.material.density(Tc=self.temperatureInC)
 
         return density
 
